@@ -237,7 +237,7 @@ def _call(env, p, fn, *a, **kw):
 
 # ------------------------------------------------------------------ frame: the builders only read what they are given
 
-_VALUE_CELLS = 16      # a constraint with more cells than this is observed by name and scope only
+_VALUE_CELLS = 8       # a constraint with more cells than this is observed by name and scope only
 
 
 def _guard(f):
@@ -254,17 +254,20 @@ def _obs_variable(v):
             tuple(v.cost_for_val(x) for x in vals))
 
 
-def _obs_constraint(c, values):
-    """what a caller sees of a constraint: its name, its scope (the variable objects, in order) and, for the
-    small ones, its value on every assignment"""
+def _obs_scope(c):
+    """what a caller sees of a constraint (1): its name and its scope - the variable objects, in order"""
+    dims = list(c.dimensions)
+    return (id(c), c.name, tuple(id(v) for v in dims), tuple(v.name for v in dims))
+
+
+def _obs_values(c):
+    """what a caller sees of a constraint (2): its value on every assignment (small constraints only)"""
     dims = list(c.dimensions)
     names = [v.name for v in dims]
-    out = [id(c), c.name, tuple(id(v) for v in dims), tuple(names)]
-    if values:
-        doms = [list(v.domain.values) for v in dims]
-        if math.prod(len(d) for d in doms) <= _VALUE_CELLS:
-            out.append(tuple(c(**dict(zip(names, vals))) for vals in itertools.product(*doms)))
-    return tuple(out)
+    doms = [list(v.domain.values) for v in dims]
+    if math.prod(len(d) for d in doms) > _VALUE_CELLS:
+        return None
+    return tuple(c(**dict(zip(names, vals))) for vals in itertools.product(*doms))
 
 
 def _obs_dict(d):
@@ -277,12 +280,17 @@ class _Frame:
     Identity (``id``) is the identity of the objects *held by the caller*: the same objects, in the same
     containers, in the same order.  Private attributes are never looked at."""
 
+    WHAT = dict(containers="the-lists-or-the-dcop-handed-over-hold-the-same-objects-in-the-same-order",
+                variables="variables-and-their-domains-unchanged",
+                scopes="constraints-keep-their-name-and-scope",
+                values="constraints-keep-their-value-on-every-assignment")
+
     def __init__(self, env, p, module, variables, cons, lists=None, dcop=None):
         self.env, self.p, self.module = env, p, module
         self.variables, self.cons = list(variables), list(cons)
         self.lists, self.dcop = lists, dcop
-        self.values = len(self.variables) <= 40
-        self.before = self.observe()
+        self.small = len(self.variables) <= 40
+        self.before = self.observe(self.small)
 
     def build(self):
         """the call under contract, on the objects the caller holds (again and again the same ones)"""
@@ -298,21 +306,20 @@ class _Frame:
         return (d.name, d.objective, _obs_dict(d.variables), _obs_dict(d.constraints), _obs_dict(d.domains),
                 _obs_dict(d.agents), _obs_dict(d.external_variables), tuple(id(v) for v in d.all_variables))
 
-    def observe(self):
-        return dict(
-            containers=_guard(self._containers),
-            variables=_guard(lambda: tuple(_obs_variable(v) for v in self.variables)),
-            constraints=_guard(lambda: tuple(_obs_constraint(c, self.values) for c in self.cons)))
+    def observe(self, values):
+        o = dict(containers=_guard(self._containers),
+                 variables=_guard(lambda: tuple(_obs_variable(v) for v in self.variables)),
+                 scopes=_guard(lambda: tuple(_obs_scope(c) for c in self.cons)))
+        if values:
+            o["values"] = _guard(lambda: tuple(_obs_values(c) for c in self.cons))
+        return o
 
-    def check(self, prove, area, info, when=""):
-        after = self.observe()
-        what = dict(containers="the-lists-or-the-dcop-handed-over-hold-the-same-objects-in-the-same-order",
-                    variables="variables-and-their-domains-unchanged",
-                    constraints="constraints-keep-their-name-scope-and-values")
-        for key in ("containers", "variables", "constraints"):
-            b, a = self.before[key], after[key]
-            prove("%s.frame.%s%s" % (area, what[key], when), a == b,
-                  detail=lambda: (info(), key, "before", b if self.values else None, "after", a if self.values else None))
+    def check(self, prove, area, info, values=False, when=""):
+        after = self.observe(values and self.small)
+        for key, a in after.items():
+            b = self.before[key]
+            prove("%s.frame.%s%s" % (area, self.WHAT[key], when), a == b,
+                  detail=lambda: (info(), key, "before", b if self.small else None, "after", a if self.small else None))
 
 
 def _scribble(g):
@@ -330,13 +337,14 @@ def _scribble(g):
 
 def _frame_epilogue(env, prove, area, fr, g, info, second=None):
     """the frame obligations of the four builders, stated after the obligations of the property:
-      1. the inputs are as they were before the call;
+      1. the inputs are as they were before the call (containers, variables, names and scopes of the constraints);
       2. (small problems) a second graph built from the very same objects satisfies `second` (the same oracle as
          the first one) - a builder that consumed / marked its inputs gives a wrong second graph;
-      3. writing into the lists published by the returned graph(s) does not reach the inputs."""
+      3. writing into the lists published by the returned graph(s) does not reach the inputs: observed once more,
+         this time with the value of every (small) constraint on every assignment."""
     fr.check(prove, area, info)
     graphs = [g]
-    if second is not None and fr.values:
+    if second is not None and fr.small:
         g2 = fr.build()
         if isinstance(g2, Raised):
             prove(area + ".frame.second-build-from-the-same-inputs-does-not-raise", False, detail=lambda: (info(), g2.tb[-1500:]))
@@ -345,7 +353,7 @@ def _frame_epilogue(env, prove, area, fr, g, info, second=None):
             graphs.append(g2)
     for x in graphs:
         _guard(lambda: _scribble(x))
-    fr.check(prove, area, info, when="-after-a-second-build-and-writing-into-the-returned-graphs")
+    fr.check(prove, area, info, values=True, when="-after-a-second-build-and-writing-into-the-returned-graphs")
 
 
 # ------------------------------------------------------------------ oracle (from the scope list only)
